@@ -230,9 +230,21 @@ def b_list(eng, st, node, args, kwargs):
     raise GenerationError(f"list({v})")
 
 
+def unwrap_opt(eng, st, v, origin, exc="TypeError"):
+    """Use an Optional value where a plain one is needed: raises `exc` when it is None."""
+    if isinstance(v, V) and isinstance(v.ty, TOpt):
+        eng.may_raise(st, eng.decls.is_some(v.t), exc, origin)
+        return wrap(eng, v.ty.inner, eng.decls.opt_val(v.t))
+    if isinstance(v, NoneV):
+        eng.may_raise(st, FALSE, exc, origin)
+        return V(INT, IntVal(0))
+    return v
+
+
 def b_minmax(which):
     def f(eng, st, node, args, kwargs):
         if len(args) == 2:
+            args = [unwrap_opt(eng, st, a, eng.origin(node)) for a in args]
             a, b = pyops._int(eng, args[0]), pyops._int(eng, args[1])
             return V(INT, smt.Min(a, b) if which == "min" else smt.Max(a, b))
         raise GenerationError(which)
